@@ -18,10 +18,12 @@ def main(ctx):
     tlc_mc(ctx, "Locks.tla", "Locks_largebatch.cfg", timeout=900, label="Locks.tla with the oversize-batch writer: NoLeak NoStuck")
     tlc_mc(ctx, "Locks.tla", "Locks_live_quick.cfg", timeout=900,
            label="Locks.tla with a sticky manifest error (compaction commits retried for ever): every client call and Close still return (Live, per-process fairness)")
+    tlc_mc(ctx, "Locks.tla", "Locks_setro.cfg", timeout=900,
+           label="Locks.tla with a client calling SetReadOnly (lock handed to the error goroutine, given back at Close): NoLeak NoStuck Live")
     if not ctx.quick:
         tlc_mc(ctx, "Locks.tla", "Locks_thorough.cfg", timeout=3000, label="Locks.tla two writers, 3 faults: NoLeak NoStuck Live")
         tlc_mc(ctx, "Locks.tla", "Locks_sticky_F9.cfg", timeout=1800, label="Locks.tla two writers, sticky manifest error: Live")
-        for f in ("F6", "F7", "F8", "F9"):
+        for f in ("F6", "F7", "F8", "F9", "F30"):
             r = tlc_mc(ctx, "Locks.tla", "Locks_ascoded_%s.cfg" % f, timeout=600, expect_violation=True,
                        label="Locks.tla with defect %s as it was coded (must be violated: non-vacuity)" % f)
             if not r["violated"]:
